@@ -252,7 +252,33 @@ func argClass(s step) string {
 
 type replayCase struct {
 	Mount string `json:"mount"`
+	Cross bool   `json:"cross,omitempty"` // a writable WithDirMount is mounted next to the immutable one
 	Word  []step `json:"word"`
+}
+
+func (w *world) rcase(word []step) replayCase {
+	return replayCase{kindNames[w.kind], w.cross, append([]step{}, word...)}
+}
+
+// crossOps: operations with two descriptors, one on a WRITABLE mount ("rw": w.txt, wd/) and one on the
+// immutable mount — moving or hard-linking entries across the mount boundary in both directions.
+func crossOps(paths []string) []step {
+	var s []step
+	for _, p := range paths {
+		s = append(s,
+			step{Op: "path_rename", Fd: "rw", Path: "w.txt", Fd2: "pre", Path2: p},
+			step{Op: "path_rename", Fd: "rw", Path: "wd", Fd2: "pre", Path2: p},
+			step{Op: "path_rename", Fd: "pre", Path: p, Fd2: "rw", Path2: "got"},
+			step{Op: "path_rename", Fd: "pre", Path: p, Fd2: "rw", Path2: "w.txt"},
+		)
+		for lk := uint16(0); lk < 2; lk++ {
+			s = append(s,
+				step{Op: "path_link", Fd: "rw", Path: "w.txt", Fd2: "pre", Path2: p, Lookup: lk},
+				step{Op: "path_link", Fd: "pre", Path: p, Fd2: "rw", Path2: "got", Lookup: lk},
+			)
+		}
+	}
+	return s
 }
 
 // runWord executes the word from the baseline state, evaluates the invariant after every step, then
@@ -333,7 +359,7 @@ func (e *explorer) changed(w *world, st *stats, executed []step, cur string) {
 		return
 	}
 	st.outcomes["CHANGED:"+sig]++
-	e.run.Violation(sig, what, replayCase{kindNames[w.kind], append([]step{}, executed...)})
+	e.run.Violation(sig, what, w.rcase(executed))
 }
 
 // replayWord runs the steps on the world's current (fresh) state and returns the index of the first
@@ -365,12 +391,12 @@ func (e *explorer) finalRead(w *world, st *stats) {
 		if en != 0 || got != pc[1] {
 			e.run.Violation(kindNames[w.kind]+":read-through-mount:"+pc[0],
 				fmt.Sprintf("mount=%s: reading %q through the mount after the shard gives errno=%s content=%q, want %q", kindNames[w.kind], pc[0], errName(en), got, pc[1]),
-				replayCase{kindNames[w.kind], nil})
+				w.rcase(nil))
 		}
 	}
 	if cur := w.snapshot(); cur != w.baseline {
 		_, detail := diffSnap(w.baseline, cur)
-		e.run.Violation(kindNames[w.kind]+":read-through-mount:changed", "reading through the mount changed the host state: "+detail, replayCase{kindNames[w.kind], nil})
+		e.run.Violation(kindNames[w.kind]+":read-through-mount:changed", "reading through the mount changed the host state: "+detail, w.rcase(nil))
 		w.freshTree()
 	}
 }
@@ -389,7 +415,7 @@ func nontrivial(errs []uint32) bool {
 // followed by every tail.
 func (e *explorer) openShard(kind int, path string, lookup uint16, rights uint64) {
 	st := newStats()
-	w := newWorld(kind, e.tmp)
+	w := newWorld(kind, e.tmp, false)
 	defer func() { w.close(); e.merge(kind, st) }()
 	fdT := fdTails(e.thorough)
 	for of := uint16(0); of < 16; of++ {
@@ -404,7 +430,7 @@ func (e *explorer) openShard(kind int, path string, lookup uint16, rights uint64
 			if nontrivial(errs[:1]) {
 				st.nontriv++
 			}
-			e.samples.Add(replayCase{kindNames[kind], []step{open}})
+			e.samples.Add(w.rcase([]step{open}))
 			if !ok || errs[0] != 0 {
 				continue
 			}
@@ -419,6 +445,31 @@ func (e *explorer) openShard(kind int, path string, lookup uint16, rights uint64
 				errs, _ := e.runWord(w, st, word)
 				if len(errs) == len(word) && nontrivial(errs) {
 					st.nontriv++
+				}
+			}
+			if e.thorough && ff == 0 { // two descriptors: open ; second open ; descriptor op on either
+				base := fdTails(false)
+				seconds := []step{
+					{Op: "path_open", Path: path, Lookup: 1, Rights: rRead},
+					{Op: "path_open", Path: "dir", Lookup: 1, Oflags: wasip1.O_DIRECTORY, Rights: rRead},
+					{Op: "path_open", Path: "file.txt", Lookup: 1, Fdflags: wasip1.FD_APPEND, Rights: rRead},
+				}
+				for _, second := range seconds {
+					for _, t := range base {
+						for _, target := range []string{"new", "new2"} {
+							word := []step{open, second}
+							for _, ts := range t {
+								if ts.Fd == "new" {
+									ts.Fd = target
+								}
+								word = append(word, ts)
+							}
+							errs, _ := e.runWord(w, st, word)
+							if len(errs) == len(word) && nontrivial(errs) {
+								st.nontriv++
+							}
+						}
+					}
 				}
 			}
 			if e.thorough && ff == 0 { // three-step words: open ; descriptor op ; descriptor op
@@ -443,9 +494,9 @@ func (e *explorer) openShard(kind int, path string, lookup uint16, rights uint64
 }
 
 // rootShard: single-step path and descriptor operations on the mount root.
-func (e *explorer) rootShard(kind int, ops []step, fdOps bool) {
+func (e *explorer) rootShard(kind int, ops []step, fdOps, cross bool) {
 	st := newStats()
-	w := newWorld(kind, e.tmp)
+	w := newWorld(kind, e.tmp, cross)
 	defer func() { w.close(); e.merge(kind, st) }()
 	for _, s := range ops {
 		if e.run.Expired() {
@@ -456,7 +507,10 @@ func (e *explorer) rootShard(kind int, ops []step, fdOps bool) {
 		if nontrivial(errs) {
 			st.nontriv++
 		}
-		e.samples.Add(replayCase{kindNames[kind], []step{s}})
+		e.samples.Add(w.rcase([]step{s}))
+		if cross {
+			w.resetRW()
+		}
 		if fdOps && !w.preopenAlive() {
 			st.outcomes["preopen-lost-after:"+s.Op]++
 			w.instantiate()
@@ -507,9 +561,10 @@ func main() {
 		const chunk = 400
 		for i := 0; i < len(rp); i += chunk {
 			part := rp[i:min(i+chunk, len(rp))]
-			shards = append(shards, func() { e.rootShard(kind, part, false) })
+			shards = append(shards, func() { e.rootShard(kind, part, false, false) })
 		}
-		shards = append(shards, func() { e.rootShard(kind, rootFdOps(), true) })
+		shards = append(shards, func() { e.rootShard(kind, rootFdOps(), true, false) })
+		shards = append(shards, func() { e.rootShard(kind, crossOps(paths), false, true) })
 	}
 	if pf := os.Getenv("C17_CPUPROFILE"); pf != "" { // developer aid only
 		f, err := os.Create(pf)
@@ -533,7 +588,7 @@ func main() {
 	bounds := map[string]any{
 		"paths": paths, "oflags": "all 16", "fdflags": "all 32", "rights": []string{"0", "READ", "WRITE", "READ|WRITE", "ALL"}, "lookupflags": "0,1",
 		"fd_tails": len(fdTails(e.thorough)), "path_tails_dir": len(pathTails(true, e.thorough)), "path_tails_nondir": len(pathTails(false, e.thorough)),
-		"three_step_words": e.thorough, "full_snapshot_every_words": e.fullEvery, "shards": len(shards), "explore_wall_s": float64(int(wall*10)) / 10,
+		"three_step_words": e.thorough, "two_descriptor_words": e.thorough, "full_snapshot_every_words": e.fullEvery, "shards": len(shards), "explore_wall_s": float64(int(wall*10)) / 10,
 	}
 	var steps, words, nontriv, reads, opensOK int64
 	perKind := map[string]any{}
@@ -581,7 +636,7 @@ func replayMain(file string) {
 	}
 	tmp, err := os.MkdirTemp("", "c17-replay-")
 	must(err)
-	w := newWorld(kindByName(doc.Replay.Mount), tmp)
+	w := newWorld(kindByName(doc.Replay.Mount), tmp, doc.Replay.Cross)
 	fmt.Printf("replaying %s on mount %s\n", doc.Signature, doc.Replay.Mount)
 	at, _ := replayWord(w, doc.Replay.Word, func(s string) { fmt.Println(s) })
 	bad := at >= 0
